@@ -103,14 +103,25 @@ func check(c Case) *vk.Failure {
 	return nil
 }
 
+var scratch vk.Scratch
+
 func checkRange(orig []uint64, i, end int32) *vk.Failure {
-	w := append(make([]uint64, 0, len(orig)), orig...) // private copy for the code under test
+	w := append(make([]uint64, 0, len(orig)), orig...) // private copy for the code under test ...
+	reused := scratch.Reuse(vk.SumU64(orig) + uint64(i)*7 + uint64(end))
+	if reused {
+		w = scratch.U64(orig) // ... or a reused buffer: same address as earlier calls, other content
+	}
 	if f := checkRange1(orig, w, i, end); f != nil {
 		return f
 	}
 	for k := range orig {
 		if orig[k] != w[k] {
 			return vk.Failf("mutates", "bitmap word %d changed by NextOne/PrevOne(%d,%d)", k, i, end)
+		}
+	}
+	if reused {
+		if msg := scratch.Check(); msg != "" {
+			return vk.Failf("argument-spare-capacity-written", "NextOne/PrevOne(%d,%d): %s", i, end, msg)
 		}
 	}
 	return nil
@@ -226,6 +237,9 @@ func TestGrid(t *testing.T) {
 						evals++
 						if rangeNontrivial(w, i, end) {
 							nontriv++
+						}
+						if (i+end)&63 == 0 {
+							checker.Remember(Case{Words: w, Style: "grid", Ranges: [][2]int32{{i, end}}})
 						}
 						if f := checkRange(w, i, end); f != nil {
 							fc := Case{Words: w, Style: "grid", Ranges: [][2]int32{{i, end}}}
